@@ -87,7 +87,7 @@ def run(ctx):
     bound, cap = (3, 400000) if thorough else (2, 60000)
     for layer, extra in LAYERS:
         for n in ((2,) if layer == "L_hilbert" else (1, 2, 3)):
-            for interp in ("direct", "nn", "linear", "clamp", "affine_nn"):
+            for interp in ("direct", "nn", "linear", "clamp", "affine_nn", "backup"):
                 js.append(Job("explore_%s_%s_N%d" % (layer, interp, n), SRC, ["-O1", "-w", "-pthread"] + extra, ["VP_LAYER=" + layer], ["explore", bound, cap, ctx.tier, "/%s/N%d/" % (interp, n)], timeout=1500,
                               key_prefix="explore_%s_%s_N%d" % (layer, interp, n)))
     js.append(Job("explore_L_strided_linear_N4", SRC, ["-O1", "-w", "-pthread"], ["VP_LAYER=L_strided"], ["explore", bound, cap, ctx.tier, "/linear/N4/"], timeout=1500, key_prefix="explore_L_strided_linear_N4"))
@@ -95,12 +95,12 @@ def run(ctx):
     FN = ["-O0", "-w", "-pthread", "-DVP_FN_POINTS", "-finstrument-functions", "-finstrument-functions-exclude-file-list=include/vp,harness/,/usr/"]
     for layer, extra in LAYERS:
         for n in ((2,) if layer == "L_hilbert" else (1, 2)):
-            for interp in ("direct", "nn", "linear", "clamp", "affine_nn"):
+            for interp in ("direct", "nn", "linear", "clamp", "affine_nn", "backup"):
                 if interp == "linear" and not thorough:
                     continue   # one linear lookup has ~130 function entries; bound 2 over it is a thorough-tier item
                 if not thorough and n == 1 and layer != "L_hilbert":
                     continue   # quick: the 2-D configurations only
-                if not thorough and interp in ("clamp", "affine_nn") and layer.startswith("L_morton"):
+                if not thorough and interp in ("clamp", "affine_nn", "backup") and layer.startswith("L_morton"):
                     continue   # quick: wrapper kinds over row-major and Hilbert only (a Morton lookup has 3x the function entries)
                 js.append(Job("explorefn_%s_%s_N%d" % (layer, interp, n), SRC, FN + extra, ["VP_LAYER=" + layer], ["explore_fn", 2, cap, ctx.tier, "/%s/N%d/" % (interp, n)], timeout=1500,
                               key_prefix="explorefn_%s_%s_N%d" % (layer, interp, n)))
@@ -158,7 +158,7 @@ def run(ctx):
         "completed_bounds": "every configuration not listed under capped_configs was enumerated completely within its stated preemption bound", "preemption_bound": bound, "max_schedules_per_config": cap,
         "samples": samples[:12] or ["(none)"],
         "rule": "real pthreads under a cooperative futex hand-off scheduler (exactly one runnable thread); scheduling point = every storage access of the probe backend (hook runs before the access) + one final segment per thread; "
-                "per (layer in strided/morton portable/morton BMI2/hilbert, interpolation in direct/nn/linear, N in 1..3, program, shared or per-thread views): ALL interleavings for the 2-thread programs "
+                "per (layer in strided/morton portable/morton BMI2/hilbert, interpolation / wrapper in direct/nn/linear/clamp/affine-over-nn/backup (out-of-range default; its writers own border cells of the region and write them through the storage view beneath), N in 1..3, program, shared or per-thread views): ALL interleavings for the 2-thread programs "
                 "(e.g. C(18,9)=48620 for two 3-D linear lookups), preemption bound %d for the 3-thread programs (3 readers x 2 lookups; 2 readers + 1 writer storing to cells nobody else touches); every schedule runs to completion; "
                 "oracle per schedule: per-thread results == sequential run, final storage == sequential, no cell written by one thread and accessed by another, no out-of-bounds index; violating schedules are replayed twice before being reported; "
                 "a second exploration is built with -finstrument-functions so that every entry into a covfie function is a scheduling point too (programs in which one lookup primes per-view / static state and another thread's lookup falls in between; preemption bound 2); a third exploration runs every schedule in a freshly forked process with a scheduling point at every basic block of covfie code (-fsanitize-coverage=trace-pc), so that first-use state (function-local statics, lazily built tables) is interleaved from its initial state; expected values there come from the reference curves; states = complete schedules executed, transitions = scheduling decisions taken; non-trivial = distinct (configuration, program) pairs; separately the same thread bodies run free under -fsanitize=thread with T in %s"
